@@ -249,12 +249,12 @@ func runC05(c *eng.Ctx) {
 	// dependency on or off the cycle): "exactly when ... contains a directed cycle" still asks
 	// for the circular-dependency error
 	for _, s := range []*Spec{
-		{Regs: []Reg{mkReg("PosA_0_2", godi.Singleton), mkReg("PosA_1_1", godi.Scoped)}},                                      // K0(K1) singleton <-> K1(K0) scoped
-		{Regs: []Reg{mkReg("PosA_0_2", godi.Transient), mkReg("PosA_1_1", godi.Scoped)}},                                      // transient <-> scoped
-		{Regs: []Reg{mkReg("PosA_0_2", godi.Scoped), mkReg("PosA_1_1", godi.Scoped), mkReg("PosA_2_8", godi.Scoped)}},         // cycle K0<->K1, K2 needs the unregistered K3
-		{Regs: []Reg{mkReg("PosA_0_6", godi.Scoped), mkReg("PosA_1_1", godi.Scoped)}},                                         // K0(K1,K2) with K2 missing, K1(K0)
-		{Regs: []Reg{mkReg("InU_0_2_Keyed", godi.Singleton, withName("k")), mkReg("InU_1_1_Keyed", godi.Scoped, withName("k"))}}, // keyed cycle + conflict
-		{Regs: []Reg{mkReg("InU_0_2_Group", godi.Singleton), mkReg("PosA_1_1", godi.Scoped, withGroup("g"))}},                 // group cycle + conflict
+		{Regs: []Reg{mkReg("PosA_0_2", godi.Singleton), mkReg("PosA_1_1", godi.Scoped)}},                                                                     // K0(K1) singleton <-> K1(K0) scoped
+		{Regs: []Reg{mkReg("PosA_0_2", godi.Transient), mkReg("PosA_1_1", godi.Scoped)}},                                                                     // transient <-> scoped
+		{Regs: []Reg{mkReg("PosA_0_2", godi.Scoped), mkReg("PosA_1_1", godi.Scoped), mkReg("PosA_2_8", godi.Scoped)}},                                        // cycle K0<->K1, K2 needs the unregistered K3
+		{Regs: []Reg{mkReg("PosA_0_6", godi.Scoped), mkReg("PosA_1_1", godi.Scoped)}},                                                                        // K0(K1,K2) with K2 missing, K1(K0)
+		{Regs: []Reg{mkReg("InU_0_2_Keyed", godi.Singleton, withName("k")), mkReg("InU_1_1_Keyed", godi.Scoped, withName("k"))}},                             // keyed cycle + conflict
+		{Regs: []Reg{mkReg("InU_0_2_Group", godi.Singleton), mkReg("PosA_1_1", godi.Scoped, withGroup("g"))}},                                                // group cycle + conflict
 		{Regs: []Reg{mkReg("PosA_3_8", godi.Singleton), mkReg("PosA_0_2", godi.Scoped), mkReg("Leaf_K1_a", godi.Scoped), mkReg("PosB_2_1", godi.Singleton)}}, // self-loop K3(K3) + unrelated conflict K2(K0 scoped)
 	} {
 		idx, mine := cr.next()
